@@ -28,6 +28,9 @@ THEOREMS = [
     'C12.locale_texts_ok', 'C12.sentLine_le', 'C12.action_reply_single', 'C12.replyCall_normal', 'C12.unchecked_counterexample',
     'C12.mores_off_single', 'C12.nested_arg', 'C12.fits_512_call', 'C12.storeMask_cases',
     'C12.relayed_len', 'C12.fits_512_relayed', 'C12.stale_belief_overflows',
+    # lean/LimnoriaModel/C12/LinkC06.lean: blen = C06.utf8Len = driver bytes (C11), sentLine = C06.truncate
+    'C12.blen_eq_driver_bytes', 'C12.takeBytes_eq_cutToBytes', 'C12.limits_agree', 'C12.sentLine_eq_truncate',
+    'C12.sentLine_driver_bytes', 'C12.relayed_driver_bytes', 'C12.makeReply_command',
 ]
 TRUSTED = ['Lean 4.33.0 kernel; axioms ⊆ {propext, Classical.choice, Quot.sound}',
            'harness/extractors/reply.py (constants of splitBytes, FormatContext, FormatParser, reply, _makeReply → Gen/Reply.lean)',
@@ -1053,7 +1056,8 @@ def explore(ctx, n_pure, n_wrap, n_live, stream='c12', with_corpus=True):
 
 
 def run(ctx):
-    build = leanbuild.ensure(PROPERTY, THEOREMS, thorough=ctx.thorough, extractors=['Reply'])
+    build = leanbuild.ensure(PROPERTY, THEOREMS, thorough=ctx.thorough, extractors=['Reply'],
+                             extra_modules=['LimnoriaModel.C12.LinkC06'])
     if ctx.thorough:
         n_pure, n_wrap, n_live = 360000, 180000, 15000
     else:
